@@ -67,9 +67,14 @@ func propC06(c *Ctx) string {
 	c06Cap(c, v)
 	c06Immut(c, v)
 	c06Unsub(c, v)
+	// the broker finds recipients through MatchFirst on each session's subscription tree and removes
+	// subscriptions through Empty: the tree's name-vs-filter walk and its pruning are part of this property
+	c04Table(c, "C06/MATCH", "topic.(*Tree).match", matchRef, map[string]bool{"segment=+": true, "segment=#": true})
+	c04Seg(c, "C06/SEG")
+	c05Prune(c, "C06/PRUNE")
 	c.NotDecide("the exact recipient set at runtime for all histories", "topic/payload integrity end to end", "concurrent histories (only lock discipline, see C13/C15)",
 		"which of several matching subscriptions of one client grants the QoS (MatchFirst picks one, allowed by the statement)")
-	c.Assume("topic.Tree implements MQTT matching (C04) and replace-on-Set (C05)", "instance-insensitive field keys")
+	c.Assume("topic.Tree.Set replaces the value list (C05/ADDSET)", "instance-insensitive field keys")
 	return c06Explanation
 }
 
